@@ -1,5 +1,5 @@
 (* C20 model driver.  One case per line = the event list recorded on the real run
-     N vs va ; C h ; M h ; R h vs va ; S h ; = hd hs ; X h ; A h n grow ; D h b n shrink ; F h n grow
+     N vs va ; C h ; M h ; T h ; Q a b ; R h vs va ; S h ; = hd hs ; X h ; A h n grow ; D h b n shrink ; F h n grow
    (M = construction from an rvalue allocator, F = allocate in which the base allocator threw)
    output: for every event what the extracted Coq model (PoolAlloc.step / proto_ok / h_ok / routed_ok) says:
      <dest> <refs count bs al cached sane | dead> <allocs> <frees> <h_ok> <routed_ok> <proto_ok>
@@ -45,6 +45,8 @@ let parse_event toks : op option =
   | ["N"; vs; va] -> Some (OpNew { vsize = z_of_string vs; valign = z_of_string va })
   | ["C"; h] -> Some (OpCopy (n h))
   | ["M"; h] -> Some (OpMove (n h))
+  | ["T"; h] -> Some (OpElem (n h))
+  | ["Q"; a; b] -> Some (OpQuery (n a, n b))
   | ["F"; h; cnt; grow] -> Some (OpAllocFail (n h, z_of_string cnt, n grow))
   | ["R"; h; vs; va] -> Some (OpRebind (n h, { vsize = z_of_string vs; valign = z_of_string va }))
   | ["S"; h] -> Some (OpSocc (n h))
@@ -100,6 +102,7 @@ let () = iter_lines (fun line ->
       let pr = proto_ok !cfg !st o in
       let hk = (match o with OpAllocFail (h, cnt, _) -> h_ok !cfg !st (OpAlloc (h, cnt, O)) | _ -> h_ok !cfg !st o) in
       let is_fail = (match o with OpAllocFail _ -> true | _ -> false) in
+      let query = (match o with OpQuery (a, b) -> Some (alloc_eq !st a b) | _ -> None) in
       (match step !cfg !st o with
        | Ok (st', ob) ->
          incr k;
@@ -110,7 +113,7 @@ let () = iter_lines (fun line ->
              Printf.sprintf "%d %d %s %s %d 1" (int p.prefs) (int p.pcount) (string_of_z (fst p.pparams)) (string_of_z (snd p.pparams))
                (int ((!st).cached ob.o_pool))
            else "dead" in
-         Printf.sprintf "%s %s %d %d %s %s %s" (if is_fail then "E" else tag_str ob.o_dest) ps (int ob.o_allocs) (int ob.o_frees)
+         Printf.sprintf "%s %s %d %d %s %s %s" (if is_fail then "E" else match query with Some r -> (if r then "Q1" else "Q0") | None -> tag_str ob.o_dest) ps (int ob.o_allocs) (int ob.o_frees)
            (b01 hk) (b01 (routed_ok ob)) (b01 pr)
        | _ -> stuck := true; "STUCK")) evs in
   print_endline (String.concat " ; " out))
